@@ -420,8 +420,10 @@ fn apply_writes(storage: &mut dyn Storage, writes: &[(Binary, Option<Binary>)]) 
 
 fn reply_script(reply: &Reply) -> (Script, (u64, Vec<u8>, ReplySeen)) {
     REPLY_GAS.with(|g| g.borrow_mut().push(reply.gas_used));
-    if let SubMsgResult::Ok(r) = &reply.result {
-        EXTRAS.with(|t| t.borrow_mut().push(format!("reply.msg_responses={:?}", r.msg_responses)));
+    match &reply.result {
+        SubMsgResult::Ok(r) => EXTRAS.with(|t| t.borrow_mut().push(format!("reply.msg_responses={:?}", r.msg_responses))),
+        // the error text a reply handler is handed can end up in contract state: it must not differ between executions
+        SubMsgResult::Err(e) => EXTRAS.with(|t| t.borrow_mut().push(format!("reply.err={}", e))),
     }
     let seen = match &reply.result {
         #[allow(deprecated)]
